@@ -166,7 +166,36 @@ func findResolver(c *Ctx) *resolver {
 				}
 				return true
 			})
-			_ = hroles
+			// fallback: a helper variable whose .Type is only ever compared with one of the two
+			// constants has that role (the swap idiom keeps the names and exchanges the values)
+			ast.Inspect(hd.Body, func(m ast.Node) bool {
+				be, ok := m.(*ast.BinaryExpr)
+				if !ok || (be.Op != token.NEQ && be.Op != token.EQL) || !isField(info, be.X, "parsergen/lr1", "Action", "Type") {
+					return true
+				}
+				k, _ := usesObj(info, be.Y).(*types.Const)
+				v := usesObj(info, be.X.(*ast.SelectorExpr).X)
+				if k == nil || v == nil {
+					return true
+				}
+				if hroles[v] == nil {
+					hroles[v] = map[string]bool{}
+				}
+				hroles[v][k.Name()] = true
+				return true
+			})
+			inspectNoLit(hd.Body, func(m ast.Node) bool {
+				rs, ok := m.(*ast.ReturnStmt)
+				if !ok || len(rs.Results) == 0 || exprString(rs.Results[len(rs.Results)-1]) != "true" {
+					return true
+				}
+				for i, res := range rs.Results {
+					if v := usesObj(info, res); v != nil && len(hroles[v]) == 1 && len(posRoles[i]) == 0 {
+						posRoles[i] = hroles[v]
+					}
+				}
+				return true
+			})
 			for i, l := range as.Lhs {
 				if rs := posRoles[i]; len(rs) == 1 {
 					if rs["ActionShift"] {
@@ -629,6 +658,26 @@ func rulePREC2(c *Ctx) {
 	}
 	for _, v := range storesTo("Precedence") {
 		call, ok := ast.Unparen(v).(*ast.CallExpr)
+		resPos := 0 // which result of the call the stored value is
+		if !ok {
+			// a local holding one result of a call: x, ok := h(...)
+			if o := usesObj(info, v); o != nil {
+				ast.Inspect(fd.Body, func(n ast.Node) bool {
+					as, isAs := n.(*ast.AssignStmt)
+					if !isAs || len(as.Rhs) != 1 || as.Tok != token.DEFINE {
+						return true
+					}
+					for j, l := range as.Lhs {
+						if usesObj(info, l) == o {
+							if c2, isCall := ast.Unparen(as.Rhs[0]).(*ast.CallExpr); isCall {
+								call, ok, resPos = c2, true, j
+							}
+						}
+					}
+					return true
+				})
+			}
+		}
 		if !ok {
 			continue
 		}
@@ -647,7 +696,7 @@ func rulePREC2(c *Ctx) {
 			continue
 		}
 		for i, a := range call.Args {
-			if usesObj(info, a) != numTok {
+			if usesObj(info, selRootIdent(stripConv(info, a))) != numTok {
 				continue
 			}
 			hp := paramObj(info, h, i)
@@ -663,7 +712,7 @@ func rulePREC2(c *Ctx) {
 				}
 				res := usesObj(info, as.Lhs[0])
 				inspectNoLit(h.Body, func(k ast.Node) bool {
-					if rs, ok := k.(*ast.ReturnStmt); ok && len(rs.Results) == 1 && usesObj(info, stripConv(info, rs.Results[0])) == res && res != nil {
+					if rs, ok := k.(*ast.ReturnStmt); ok && resPos < len(rs.Results) && usesObj(info, stripConv(info, rs.Results[resPos])) == res && res != nil {
 						okNum = true
 					}
 					return true
